@@ -20,14 +20,18 @@ class Template(object):
     def __init__(self, root, ps):
         self.root = root
         self.ps = ps
+        # the exit region of an opaque *expression* child is identified with its entry region (an expression creates
+        # a region only through a comprehension, whose variables are local to it); the exit region of an opaque
+        # *statement* child stays a region of its own whose only parent is the entry region: bindings made by the
+        # statement may live in a region created inside it (a compound statement ends in a fresh join)
         self.alias = {}
         for tok, r in ps.regions.items():
-            if r.get('exit_of'):
+            if r.get('exit_of') and self.sort_of(r['exit_of'][0]) != 'stmt':
                 self.alias[tok] = r['exit_of'][1]
         # parents after alias collapse
         self.parents = {}
         for tok, r in ps.regions.items():
-            if r.get('exit_of'):
+            if tok in self.alias:
                 continue
             ps_ = [self.canon(p) for p in r['parents']] + [self.canon(p) for p in r['loops']]
             self.parents[tok] = [p for p in ps_ if p != tok] + ([tok] if tok in ps_ else [])
@@ -37,6 +41,19 @@ class Template(object):
             self.visit_region[path] = self.canon(reg)
             self.visit_order.append(path)
         self.final = self.canon(ps.final_flow)
+
+    def sort_of(self, path):
+        cur = self.root
+        rest = path[4:]
+        import re as _re
+        for fname, idx in _re.findall(r'\.(\w+)(?:\[(\d+)\])?', rest):
+            if cur is None or not getattr(cur, 'fields', None):
+                return None
+            v = cur.fields.get(fname)
+            if isinstance(v, list):
+                v = v[int(idx)] if idx != '' and int(idx) < len(v) else None
+            cur = v
+        return getattr(cur, 'sort', None)
 
     def canon(self, tok):
         seen = set()
@@ -88,19 +105,26 @@ class Template(object):
 
     # ---- block graph ----------------------------------------------------------
     def block_graph(self, blocks):
-        """blocks: {name: [leaf nodes]}.  Graph nodes: 'pre', block names, 'after' and
-        an (in, out) pair per region.  Inside a region the blocks are chained in
-        position order; a region's entry inherits the *complete* table (out) of each
-        parent region, back edges included."""
-        info = {}
+        """blocks: {name: [leaf nodes]}.  Graph nodes: 'pre', 'after', an (in, out) pair per region and, per
+        block, an entry node (name, 'in') placed where the block's first leaf is visited and an exit node
+        (name, 'out') placed where a binding made at the end of the block lives: the exit region of the last
+        statement for statement blocks, the same place for expression blocks.  Inside a region the nodes are
+        chained in position order; a region's entry inherits the complete table (out) of each parent region,
+        back edges included."""
+        places = []       # (region, position, node)
         unvisited = []
         for name, lv in blocks.items():
             regs = [self.visit_region.get(x.path) for x in lv]
             if any(r is None for r in regs):
                 unvisited.append(name)
                 continue
-            info[name] = (regs[0], self.start(lv[0].path))
-        regions = set(self.parents) | {'CUR', self.final}
+            places.append((regs[0], self.start(lv[0].path), (name, 'in')))
+            last = lv[-1]
+            if last.sort == 'stmt':
+                places.append((self.canon('exit(%s)' % last.path), (), (name, 'out')))
+            else:
+                places.append((regs[-1], self.start(last.path) + pyref.AFTER_ALL, (name, 'out')))
+        regions = set(self.parents) | {'CUR', self.final} | {r for r, _, _ in places}
         for r in list(regions):
             regions.update(self.parents.get(r, []))
         succ = {}
@@ -109,8 +133,8 @@ class Template(object):
             succ.setdefault(a, set()).add(b)
             succ.setdefault(b, set())
         for r in regions:
-            inside = sorted((pos, name) for name, (reg, pos) in info.items() if reg == r)
-            chain = [('in', r)] + [name for _, name in inside] + [('out', r)]
+            inside = sorted(((pos, i) for i, (reg, pos, _) in enumerate(places) if reg == r), key=lambda x: (x[0], x[1]))
+            chain = [('in', r)] + [places[i][2] for _, i in inside] + [('out', r)]
             for a, b in zip(chain, chain[1:]):
                 edge(a, b)
             for p in self.parents.get(r, []):
